@@ -101,16 +101,20 @@ def model_check(ctx):
         if not any(k == a or k.startswith(a + '(') for k in cov):
             raise tlc.TLCError('action %s never taken (vacuous model run), see %s' % (a, rc['out']))
     sens = {}
-    for dev, (pid, expected) in SENSITIVITY.items():
-        if pid != ctx.pid:
-            continue
+    devs = [dev for dev, (pid, _) in SENSITIVITY.items() if pid == ctx.pid]
+
+    def one(dev):
         c2 = [c if c[0] != 'Devs' else ('Devs', '= {"%s"}' % dev) for c in small]
         cfg2 = tlc.write_cfg(os.path.join(ctx.work, 'dev_%s.cfg' % dev), constants=c2, invariants=invs)
-        r = tlc.run('MCLifecycle', cfg2, ctx.work, workers=4, timeout=600, outname='dev_%s.out' % dev)
-        if r['violated'] not in expected:
-            raise tlc.TLCError('deviation %s: expected a violation of %s, TLC reports %s (%s)' % (
-                dev, sorted(expected), r['violated'], r['out']))
-        sens[dev] = r['violated']
+        return tlc.run('MCLifecycle', cfg2, ctx.work, workers=4, timeout=600, outname='dev_%s.out' % dev)
+
+    with ThreadPoolExecutor(len(devs)) as ex:       # independent TLC runs, side by side
+        for dev, r in zip(devs, ex.map(one, devs)):
+            expected = SENSITIVITY[dev][1]
+            if r['violated'] not in expected:
+                raise tlc.TLCError('deviation %s: expected a violation of %s, TLC reports %s (%s)' % (
+                    dev, sorted(expected), r['violated'], r['out']))
+            sens[dev] = r['violated']
     return res, sens
 
 
